@@ -320,6 +320,36 @@ def state_discipline(ctx, prefixes=('bespokeasm.assembler', 'bespokeasm.expressi
             if isinstance(d, (ast.List, ast.Dict, ast.Set)) or (isinstance(d, ast.Call) and unparse(d.func) in ('set', 'list', 'dict', 'bytearray', 'defaultdict', 'collections.defaultdict')):
                 n_seen += 1
                 ctx.check(q in MUTABLE_DEFAULTS, f'state:mutable-default:{ctx.short(fi)}', fi.site(d), 'no new mutable default argument (one object shared by all calls)', unparse(d))
+    # argument-keyed memos (functools.lru_cache / cache): the remembered answer is found again by equality of the arguments, so
+    # every argument must be a plain value, or a receiver that compares by identity; and the body may not read state that changes
+    for q, fi in sorted(ctx.repo.functions.items()):
+        if not fi.module.name.startswith(tuple(prefixes)):
+            continue
+        memo = [d for d in fi.node.decorator_list
+                if unparse(d.func if isinstance(d, ast.Call) else d).split('.')[-1] in ('lru_cache', 'cache', 'memoize', 'memoized')]
+        if not memo:
+            continue
+        n_seen += 1
+        why = []
+        plain = {'str', 'int', 'bool', 'bytes', 'float'}
+        a_ = fi.node.args
+        for k_, p_ in enumerate(a_.posonlyargs + a_.args + a_.kwonlyargs):
+            if k_ == 0 and fi.cls is not None and fi.kind in ('method', 'classmethod') and p_.arg in ('self', 'cls'):
+                eq = [c.name for c in fi.cls.mro() + fi.cls.all_subclasses() if '__eq__' in c.methods or '__hash__' in c.methods]
+                if eq:
+                    why.append(f'the receiver is found again by the __eq__ / __hash__ of {", ".join(eq)}, not by identity')
+                continue
+            if p_.annotation is None or unparse(p_.annotation) not in plain:
+                why.append(f'argument {p_.arg} is not a plain value')
+        if a_.vararg or a_.kwarg:
+            why.append('variable arguments')
+        if fi.cls is not None:
+            changing = {attr for (cn, attr) in STATE_TABLE if any(cn == c.name for c in fi.cls.mro() + fi.cls.all_subclasses())}
+            reads = {n.attr for n in ast.walk(fi.node) if isinstance(n, ast.Attribute) and isinstance(n.value, ast.Name) and n.value.id == 'self'}
+            if reads & changing:
+                why.append(f'reads {", ".join(sorted(reads & changing))}, which changes between calls')
+        ctx.check(not why, f'state:memo:{ctx.short(fi)}', fi.site(), 'a memoised function is keyed by plain values or by the identity of its receiver, and reads nothing that changes',
+                  f'@{unparse(memo[0])} on {fi.name}: ' + '; '.join(why) + ' - a later call can be answered with what an earlier, different call computed')
     # module-level containers created for the purpose of being filled later
     for m in ctx.repo.modules.values():
         if not m.name.startswith(tuple(prefixes)):
